@@ -26,8 +26,7 @@ RULE = ("readers (read_length, read_number, remove_integer, remove_object, remov
         "{0,39,40,47,48,1000} and -1; bit strings with unused legacy/None/-1..8). A case is distinct by its operation "
         "line (operation + exact bytes); non-trivial = every case (each one exercises a tag/length/body decision).")
 ASSUMPTIONS = [
-    "read_number(b\"\") raises IndexError (internal helper, only called by remove_object on a non-empty body): that "
-    "single input is skipped by the search; the correspondence keeps it (model and code both answer IndexError)",
+    "read_number(b\"\") must raise UnexpectedDER (finding F11, fixed by 23101b2): it is part of the corpus of the search",
     "round-trip domains: encode_length 0 <= l < 256^127 (for 256^127 <= l < 256^255 the first byte no longer announces "
     "the number of length bytes; >= 256^255 is struct.error), encode_constructed tags 0..31, encode_oid first in 0..2 "
     "with second <= 39 when first < 2, encode_bitstring unused 0..7 with zero padding bits and non-empty data when unused > 0",
@@ -632,8 +631,6 @@ def short(v):
 
 def check_reader(der, name, conv, data):
     """the property at one reader input; None if it holds, else {"observed", "expected"}"""
-    if name == "read_number" and data == b"":
-        return None  # known behaviour of the internal helper (ASSUMPTIONS)
     exp = ref_reader(name, conv, data)
     try:
         got = norm(name, conv, call_reader(der, name, conv, data))
@@ -790,6 +787,12 @@ def search(ctx):
                 bad = check_reader(der, name, cv, w)
                 if bad and report(dict({"op": name, "conv": cv}, **enc_data(w)), bad):
                     return done()
+    # corpus: witness of the fixed finding F11 (read_number(b"") leaked IndexError)
+    n_eval += 1
+    ctx.hist("search", "F11-corpus")
+    bad = check_reader(der, "read_number", None, b"")
+    if bad and report(dict({"op": "read_number", "conv": None}, **enc_data(b"")), bad):
+        return done()
     # exhaustive short inputs
     for name, cv, depth in exh_plan(ctx):
         for data in exhaustive(name, depth):
